@@ -12,8 +12,6 @@ package main
 //          Observe event for DeterminismTrace.tla (run this mode with -race).
 
 import (
-	"crypto/sha256"
-	"encoding/hex"
 	"encoding/json"
 	"fmt"
 	"strings"
@@ -188,16 +186,6 @@ func maxCalls(c [][][]int) int {
 }
 
 // ------------------------------------------------------------- history
-
-type hdoc struct {
-	name string
-	run  map[string]func() string // op -> result text ("ERR: ..." for errors)
-}
-
-func sha(s string) string {
-	h := sha256.Sum256([]byte(s))
-	return hex.EncodeToString(h[:8])
-}
 
 // c03History: one input line = one request {"rounds": n, "goroutines": g}.
 func c03History(in, out string) error {
